@@ -3,6 +3,8 @@ package props
 import (
 	"encoding/json"
 	"fmt"
+	"os"
+	"path/filepath"
 	"testing"
 	"time"
 
@@ -39,6 +41,7 @@ type e1Spec struct {
 }
 
 var sharedSUT *sut.SUT
+var knownReported = map[string]bool{}
 
 func getSUT(t testing.TB) *sut.SUT {
 	if sharedSUT == nil {
@@ -98,6 +101,14 @@ func runE1(rt *rapid.T, s *sut.SUT, sp e1Spec) {
 		stats.C.Class("job-errors", len(r.JobErrs))
 		stats.C.Note("job error: %s", r.JobErrs[0])
 	}
+	for id, v := range r.KnownHits {
+		stats.C.Class("known/"+id, 1)
+		if !knownReported[id] {
+			knownReported[id] = true
+			vv := v
+			stats.C.Violate(stats.Violation{Property: sp.prop, Rule: v.Rule, Detail: v.Detail, Signature: violSig(&vv), Replay: writeReplay(sp.prop, &failure{Rule: v.Rule, Detail: v.Detail, Sig: violSig(&vv), Replay: hc})})
+		}
+	}
 	if r.Viol != nil {
 		failWith(rt, failure{Rule: r.Viol.Rule, Detail: r.Viol.Detail + "\nhistory: " + fmt.Sprint(opStrings(r.Ops)), Sig: violSig(r.Viol), Replay: hc})
 	}
@@ -138,3 +149,47 @@ var (
 	ms  = time.Millisecond
 	sec = time.Second
 )
+
+// runKnownCanaries replays the committed canary histories of the running
+// property (/verif/known/<prop>-*.json): a listed known finding that still
+// reproduces is recorded (the driver prints its KNOWN-FINDING line); one that
+// no longer reproduces is simply silent.
+func runKnownCanaries(t *testing.T, prop string) {
+	dir := os.Getenv("VERIF_KNOWN_DIR")
+	if dir == "" {
+		dir = "/verif/known"
+	}
+	files, _ := filepath.Glob(filepath.Join(dir, prop+"-*.json"))
+	for _, f := range files {
+		b, err := os.ReadFile(f)
+		if err != nil {
+			continue
+		}
+		var d replayDoc
+		if json.Unmarshal(b, &d) != nil {
+			continue
+		}
+		var hc histCase
+		if json.Unmarshal(d.Case, &hc) != nil || hc.Kind != "history" {
+			continue
+		}
+		s := getSUT(t)
+		r := hist.Replay(s, hc.Ops, hc.Seed, hc.Armed...)
+		if r.Viol == nil && r.Diverged == "" && hc.Drain {
+			r.Drain(80)
+		}
+		stats.C.EvalN(1)
+		stats.C.Class("canary/"+filepath.Base(f), 1)
+		for id, v := range r.KnownHits {
+			stats.C.Class("known/"+id, 1)
+			if !knownReported[id] {
+				knownReported[id] = true
+				vv := v
+				stats.C.Violate(stats.Violation{Property: prop, Rule: v.Rule, Detail: v.Detail, Signature: violSig(&vv), Replay: f})
+			}
+		}
+		if r.Viol != nil {
+			violate(t, prop, failure{Rule: r.Viol.Rule, Detail: "canary " + filepath.Base(f) + ": " + r.Viol.Detail, Sig: violSig(r.Viol)})
+		}
+	}
+}
